@@ -506,18 +506,19 @@ fn run_behaviour(c: &Value, serial_base: u32) -> Result<(), (String, String)> {
                 ));
             }
             if !exp.ok {
-                // a failed step hands nothing to the target and leaves the client's state alone (or forgotten after a cache reset)
+                // Beyond C06's statement (which speaks about steps that finish): a failed step hands nothing to the target and
+                // leaves the client's state alone (or forgotten after a cache reset). Keys start with "beyond:".
                 let t = client.target();
                 if t.applies != prev_applies {
-                    return Err(("fail:applied".into(), format!("step {} failed but the target was handed an update", i + 1)));
+                    return Err(("beyond:fail:applied".into(), format!("step {} failed but the target was handed an update", i + 1)));
                 }
                 if t.data != exp.data {
-                    return Err(("fail:data".into(), format!("step {} failed; client data {:?}, specification {:?}", i + 1, t.data, exp.data)));
+                    return Err(("beyond:fail:data".into(), format!("step {} failed; client data {:?}, specification {:?}", i + 1, t.data, exp.data)));
                 }
                 let want_state = exp.state.map(|(s, n)| (100 + s as u16, serial_base.wrapping_add(n as u32)));
                 let got_state = client.state().map(|s| (s.session(), s.serial().0));
                 if got_state != want_state {
-                    return Err(("fail:state".into(), format!("step {} failed; client state {got_state:?}, specification {want_state:?}", i + 1)));
+                    return Err(("beyond:fail:state".into(), format!("step {} failed; client state {got_state:?}, specification {want_state:?}", i + 1)));
                 }
                 break;
             }
